@@ -446,6 +446,54 @@ def _flip(op):
     return {ast.Lt: ast.Gt, ast.Gt: ast.Lt, ast.LtE: ast.GtE, ast.GtE: ast.LtE}.get(type(op), type(op))
 
 
+def latched_verdicts(ctx: Ctx, rule: str):
+    """Stop-condition classes that keep a boolean verdict in `self` inside `__call__` and answer from it."""
+    import copy
+
+    from ..core import _Subst, local_defs
+    from ..model import body_walk
+
+    obs = []
+    # -- no latched verdicts
+    n = 0
+    for ci in ctx.prog.classes.values():
+        if not ci.module.name.startswith("pyhms.stop_conditions"):
+            continue
+        m = ci.methods.get("__call__")
+        if m is None:
+            continue
+        sn = m.self_name()
+        n += 1
+        defs = local_defs(m)
+        written = {}
+        for x in body_walk(m.node):
+            if isinstance(x, (ast.Assign, ast.AugAssign, ast.AnnAssign)) and getattr(x, "value", None) is not None:
+                for t in (x.targets if isinstance(x, ast.Assign) else [x.target]):
+                    if is_self_attr(t, None, sn):
+                        v = _Subst(defs, 3).visit(copy.deepcopy(x.value))
+                        boolish = isinstance(v, (ast.Compare, ast.BoolOp)) or (isinstance(v, ast.Constant) and isinstance(v.value, bool)) or (isinstance(v, ast.UnaryOp) and isinstance(v.op, ast.Not)) or (isinstance(v, ast.Call) and norm(v.func) in ("bool", "any", "all"))
+                        if boolish:
+                            written[t.attr] = x
+        used = None
+        for x in body_walk(m.node):
+            exprs = []
+            if isinstance(x, ast.Return) and x.value is not None:
+                exprs.append(x.value)
+            elif isinstance(x, (ast.If, ast.While)):
+                exprs.append(x.test)
+            for e in exprs:
+                for y in ast.walk(e):
+                    if is_self_attr(y, None, sn) and y.attr in written and used is None:
+                        used = (x, y.attr)
+        if used is not None:
+            obs.append(ctx.ob(rule, m, written[used[1]], status=VIOLATION, detail=f"{ci.name} keeps its verdict in the condition object (`{norm(written[used[1]])[:80]}`) and answers from it (`{norm(used[0])[:60]}`): once true it is true for every tree and every later run that shares the object, so run() returns before the condition holds for THAT tree", construct=f"{ci.name}:latched"))
+        else:
+            obs.append(ctx.ob(rule, m, m.node, detail=f"{ci.name}: the verdict is computed from the argument on every consult", construct=f"{ci.name}:stateless"))
+    if n < 8:
+        raise AnalysisError(f"only {n} stop-condition classes with __call__ found")
+    return obs
+
+
 def r05_9(ctx: Ctx):
     """R05.9 the shipped stop conditions `run()` consults are what the property names them for: MetaepochLimit(n) is
     `counter >= n` (exactly n metaepochs), DontRun is constantly true, DontStop constantly false, AllStopped is the emptiness of
@@ -559,44 +607,31 @@ def r05_9(ctx: Ctx):
         if not getattr(o, "trivial", False):
             o.rule = "R05.9"
             obs.append(o)
+    # -- minimize() reports nit = the tree's metaepoch counter
+    from . import c04
+
+    for o in c04.r04_4(ctx):
+        if o.construct == "nit":
+            o.rule = "R05.9"
+            obs.append(o)
+    # -- the precision condition: SingularProblemPrecisionReached reads the wrapper's flag, which must be sticky (once the
+    # precision was hit the condition holds at every later boundary; a flag recomputed per evaluation lets run() go on)
+    from . import c16
+
+    for o in c16.r16_7(ctx):
+        o.rule = "R05.9"
+        obs.append(o)
+    try:
+        for o in c16.r16_4(ctx):
+            if o.detail.startswith(("flag ", "hit_precision can")):
+                o.rule = "R05.9"
+                obs.append(o)
+    except AnalysisError as e:
+        obs.append(ctx.ob("R05.9", None, None, subject="core.problem.PrecisionCutoffProblem", loc="-", status=INCONCLUSIVE, detail=f"the precision flag is not in the form R16.4 reads ({e})", construct="precision-flag"))
     # -- no latched verdicts
-    n = 0
-    for ci in ctx.prog.classes.values():
-        if not ci.module.name.startswith("pyhms.stop_conditions"):
-            continue
-        m = ci.methods.get("__call__")
-        if m is None:
-            continue
-        sn = m.self_name()
-        n += 1
-        defs = local_defs(m)
-        written = {}
-        for x in body_walk(m.node):
-            if isinstance(x, (ast.Assign, ast.AugAssign, ast.AnnAssign)) and getattr(x, "value", None) is not None:
-                for t in (x.targets if isinstance(x, ast.Assign) else [x.target]):
-                    if is_self_attr(t, None, sn):
-                        v = _Subst(defs, 3).visit(copy.deepcopy(x.value))
-                        boolish = isinstance(v, (ast.Compare, ast.BoolOp)) or (isinstance(v, ast.Constant) and isinstance(v.value, bool)) or (isinstance(v, ast.UnaryOp) and isinstance(v.op, ast.Not)) or (isinstance(v, ast.Call) and norm(v.func) in ("bool", "any", "all"))
-                        if boolish:
-                            written[t.attr] = x
-        used = None
-        for x in body_walk(m.node):
-            exprs = []
-            if isinstance(x, ast.Return) and x.value is not None:
-                exprs.append(x.value)
-            elif isinstance(x, (ast.If, ast.While)):
-                exprs.append(x.test)
-            for e in exprs:
-                for y in ast.walk(e):
-                    if is_self_attr(y, None, sn) and y.attr in written and used is None:
-                        used = (x, y.attr)
-        if used is not None:
-            obs.append(ctx.ob("R05.9", m, written[used[1]], status=VIOLATION, detail=f"{ci.name} keeps its verdict in the condition object (`{norm(written[used[1]])[:80]}`) and answers from it (`{norm(used[0])[:60]}`): once true it is true for every tree and every later run that shares the object, so run() returns before the condition holds for THAT tree", construct=f"{ci.name}:latched"))
-        else:
-            obs.append(ctx.ob("R05.9", m, m.node, detail=f"{ci.name}: the verdict is computed from the argument on every consult", construct=f"{ci.name}:stateless"))
-    if n < 8:
-        raise AnalysisError(f"only {n} stop-condition classes with __call__ found")
+    obs.extend(latched_verdicts(ctx, "R05.9"))
     return obs
+
 
 
 RULES = [
